@@ -548,7 +548,7 @@ def list_edit(draw, spec, mutators=True, noops=True):
     if a == "jobs":
         pool = [j for j in pool]
     min_len = 1 if a == "devices" else 0
-    if not mutators or draw(st.booleans()):
+    if not mutators or draw(st.floats(0, 1)) < 0.2:
         tg = draw(st.lists(st.sampled_from(pool), min_size=max(min_len, 0), max_size=3))
         if a == "devices" and not tg:
             tg = [pool[0]]
@@ -648,7 +648,7 @@ def group_edit(draw, spec):
 
 @st.composite
 def any_edit(draw, spec, mutators=True, noops=True, again=None):
-    k = draw(st.sampled_from(["simple"] * 6 + ["listop"] * 2 + ["up", "group"]))
+    k = draw(st.sampled_from(["simple"] * 6 + ["listop"] * 4 + ["up", "group"]))
     if k == "simple":
         return draw(simple_edit(spec, again=again))
     if k == "listop":
